@@ -18,6 +18,7 @@ from openpyxl.worksheet.formula import ArrayFormula
 from openpyxl.workbook.defined_name import DefinedName
 import formulas
 from formulas.tokens.operand import XlError
+import books
 
 logging.disable(logging.CRITICAL)
 WORK = (os.environ.get('VERIF_OUT') or '/verif') + '/.work'
@@ -26,55 +27,11 @@ FIX_A = __FIX_A__          # index of DATA!A1's value, fixed per generated copy
 WHOLE = '__WHOLE__'        # whole-column or whole-row references (sheet limits differ between the two workbooks)
 
 
-def make_book(path, a1, a2):
-    wb = openpyxl.Workbook()
-    d = wb.active
-    d.title = 'DATA'
-    d['A1'], d['A2'], d['A3'] = a1, a2, 2
-    d['B1'] = '=A1+A2'
-    if WHOLE == 'col':
-        d['B2'] = '=SUM(A:A)'                    # whole column (a million cells: few paths only)
-    else:
-        for i in range(10):
-            d.cell(row=5, column=1 + i, value=i + 1)
-        d['B2'] = '=SUM(5:5)+SUM(A1:A3)'         # whole row
-    d['B3'] = '=CALC!A1*2'                       # other sheet, which refers back to this one
-    d['B4'] = '=RATE*10'                         # defined name
-    d['C1'] = ArrayFormula('C1:C2', '=A1:A2*2')  # array formula, two cells
-    d['D1'] = '=C2+1'                            # a cell of the spilled array
-    d['E1'] = '=SUM(C1:C2,B1)'
-    d['F1'] = '=SUM(B2:C2)'                      # a rectangle that overlaps the spill without its anchor
-    d['F2'] = '=SUM(C2:D3)'
-    c = wb.create_sheet('CALC')
-    c['A1'] = '=DATA!B1+1'
-    c['A2'] = '=SUM(DATA!A1:A3)'
-    c['A3'] = '=IF(DATA!A1>1,DATA!B4,0)'
-    c['A4'] = 5
-    c['A5'] = '=A4*2'
-    c['A6'] = '=A5&DATA!A2'
-    c['B1'] = '=MAX(DATA!2:2)'                   # whole row
-    wb.defined_names['RATE'] = DefinedName('RATE', attr_text='DATA!$A$3')
-    wb.save(path)
-
-
-def make_book2(path, a1):
-    # a second workbook whose sheet has the SAME title and fewer rows / columns in use
-    wb = openpyxl.Workbook()
-    d = wb.active
-    d.title = 'DATA'
-    d['A1'], d['A2'] = a1, 1
-    if WHOLE == 'col':
-        d['B1'] = '=SUM(A:A)'
-    else:
-        d['A5'], d['B5'] = 3, a1
-        d['B1'] = '=SUM(5:5)'
-    d['B2'] = '=COUNT(1:1)'
-    wb.save(path)
-
-
 OUTS = ["'[%s]DATA'!B1", "'[%s]DATA'!B2", "'[%s]DATA'!B3", "'[%s]DATA'!B4", "'[%s]DATA'!D1", "'[%s]DATA'!E1",
         "'[%s]CALC'!A2", "'[%s]CALC'!A3", "'[%s]CALC'!A6", "'[%s]CALC'!B1", "'[%s]DATA'!C1:C2",
-        "'[%s]DATA'!F1", "'[%s]DATA'!F2", "'[book2.xlsx]DATA'!B1", "'[book2.xlsx]DATA'!B2"]
+        "'[%s]DATA'!F1", "'[%s]DATA'!F2", "'[book2.xlsx]DATA'!B1", "'[book2.xlsx]DATA'!B2",
+        "'[%s]CALC'!C1", "'[book2.xlsx]DATA'!C1", "'[book2.xlsx]DATA'!C2"]       # cross-workbook references, both ways
+NOUT = len(OUTS)
 
 
 def norm(v):
@@ -100,12 +57,11 @@ def _ranges(j, mask):
     cwd = os.getcwd()
     try:
         os.chdir(tmp)
-        make_book('book1.xlsx', VALS[FIX_A], VALS[j])
-        make_book2('book2.xlsx', VALS[j])
+        books.write_files(VALS[FIX_A], VALS[j], WHOLE)
         full = formulas.ExcelModel().loads('book1.xlsx', 'book2.xlsx').finish()
         sol = full.calculate()
         outs = [(o % 'book1.xlsx' if '%s' in o else o) for b, o in enumerate(OUTS) if mask >> b & 1]
-        if mask >> 15 & 1:
+        if mask >> NOUT & 1:
             outs = outs[::-1]               # the order of the request does not matter
         part = formulas.ExcelModel().from_ranges(*outs).finish()
         psol = part.calculate()
@@ -139,7 +95,7 @@ def ranges_ok(j0: bool, j1: bool, j2: bool, m0: bool, m1: bool, m2: bool, m3: bo
     pre: sel(m0, m1, m2, m3, m4) < len(MASKS)
     post: _
     """
-    # MASKS[.]: bit b = output b is requested, bit 15 = the request is made in reverse order
+    # MASKS[.]: bit b = output b is requested, bit NOUT = the request is made in reverse order
     return concrete(_ranges, sel(j0, j1, j2), MASKS[sel(m0, m1, m2, m3, m4)])
 
 
